@@ -10,7 +10,7 @@ SPEC = {
                   "database must be unchanged, and the honest original must still be insertable.",
     "level_note": "proposer's free choices (timestamp inside the window, offline-vote flags/address, upgrade bits, absent fee rate) are not tampered; a reordering of independent txs with a fully recomputed commitment is a different valid block and is only offered with the body cid left stale",
     "rule": "case = one tampered insertion; distinct_nontrivial = distinct (operator, block kind) pairs that reached the validator",
-    "jobs": [Job("chain", "verifsim", "^TestVerifC03$", shards=(8, 16), timeout=(900, 3600))],
+    "jobs": [Job("chain", "verifsim", "^TestVerifC03$", shards=(8, 16), timeout=(900, 7200))],
     "floors": {"blocks_tampered:proposed": (100, 1000), "blocks_tampered:empty": (20, 200), "op:TxReceiptsCid/bitflip": 100, "op:TxBloom/bitflip": 100,
                "op:FeePerGas/+1": 100, "op:Proposer/not-an-identity": 100, "op:Proposer/offline-identity": 50, "op:Body/drop-tx/commitment-recomputed": 50,
                "op:Body/drop-tx/commitment-stale": 50, "op:Body/reorder/commitment-stale": 20, "op:Time/beyond-future-offset": 100,
